@@ -13,7 +13,7 @@ LEVEL_NOTE = ("Model fidelity is checked, not proved (correspondence on window e
               "table is the reference for 'the published equation' (cross-read against the crate's doc comments; no network). "
               "Theorems are about real arithmetic; rounding is measured only. No lower-layer inputs are passed in.")
 OPS = {"indices", "meta", "all_meta", "from_string", "to_string", "serde"}
-TOL = {"indices": ("ulp", 8)}
+TOL = {"indices": ("ulp", 2)}
 DEFAULT_TOL = ("exact",)
 RULE = ("family crystal: per crystal window edges ±2 ulp and 1.2 µm ±3 ulp × T∈{−50,20,24.5,200} °C; n log-spaced jittered "
         "wavelengths and n/4 round-nm wavelengths × fixed/random T; all META records, ids, near-miss id strings; predicate grid "
